@@ -482,6 +482,13 @@ func (m *Machine) callVN(caller *frame, name string, fn *ssa.Function, args []Va
 		alts := append(append([]Iface{}, y.Alts...), x.Alts...)
 		sel := ts.Ite(c, ts.BinBV(OAdd, x.Sel, ts.BV(uint64(len(y.Alts)), 64)), y.Sel)
 		return &SymIface{Sel: sel, Alts: alts}
+	case "OpaqueStr":
+		i := m.concreteInt(args[0], "vn.OpaqueStr index")
+		v := ts.Var(fmt.Sprintf("ostr%d", i), SStr, 0)
+		m.addPC(ts.StrIsIdent(v))
+		return m.strFromTerm(v)
+	case "Tokens":
+		return m.tokens(args[0].(Str))
 	case "EqS":
 		return m.strEq(args[0].(Str), args[1].(Str))
 	case "B2I":
@@ -552,4 +559,73 @@ func (m *Machine) vnTry(caller *frame, f Value) (res Value) {
 	}()
 	m.call(caller, token.NoPos, f, nil)
 	return m.ts.False
+}
+
+// tokens renders a rope as its Grits token sequence joined by single spaces. Opaque string
+// atoms count as word material (they stand for identifiers).
+func (m *Machine) tokens(a Str) Str {
+	type item struct {
+		c  byte
+		at *Term
+	}
+	var items []item
+	for _, p := range a.parts {
+		switch {
+		case p.t != nil:
+			items = append(items, item{at: p.t})
+		case p.r != nil:
+			m.unsupported("vn.Tokens of a string with symbolic runes")
+		default:
+			for i := 0; i < len(p.s); i++ {
+				items = append(items, item{c: p.s[i]})
+			}
+		}
+	}
+	isWord := func(it item) bool {
+		if it.at != nil {
+			return true
+		}
+		c := it.c
+		return (c >= 'a' && c <= 'z') || (c >= 'A' && c <= 'Z') || (c >= '0' && c <= '9') || c == '_' || c == '\''
+	}
+	isSpace := func(it item) bool {
+		return it.at == nil && (it.c == ' ' || it.c == '\t' || it.c == '\n' || it.c == '\r' || it.c == '\v')
+	}
+	var out Str
+	first := true
+	emit := func(tok Str) {
+		if !first {
+			out = concatStr(out, mkStr(" "))
+		}
+		first = false
+		out = concatStr(out, tok)
+	}
+	two := map[string]bool{"-*": true, "-o": true, "/\\": true, "\\/": true, "=>": true, "<-": true}
+	for i := 0; i < len(items); {
+		it := items[i]
+		switch {
+		case isSpace(it):
+			i++
+		case isWord(it):
+			var tok Str
+			for i < len(items) && isWord(items[i]) {
+				if items[i].at != nil {
+					tok = concatStr(tok, m.strFromTerm(items[i].at))
+				} else {
+					tok = concatStr(tok, mkStr(string([]byte{items[i].c})))
+				}
+				i++
+			}
+			emit(tok)
+		default:
+			if i+1 < len(items) && items[i+1].at == nil && two[string([]byte{it.c, items[i+1].c})] {
+				emit(mkStr(string([]byte{it.c, items[i+1].c})))
+				i += 2
+			} else {
+				emit(mkStr(string([]byte{it.c})))
+				i++
+			}
+		}
+	}
+	return out
 }
